@@ -586,12 +586,12 @@ var c08Corpus = []struct {
 }
 
 func genC08(e *emitter, tier string, seed uint64) {
-	nHist := 1500
+	nHist := 4000
 	switch tier {
 	case "thorough":
-		nHist = 60000
+		nHist = 200000
 	case "widen":
-		nHist = 6000
+		nHist = 20000
 	}
 	for _, c := range c08Corpus {
 		l := c08RunHist(c.nconn, strings.Split(c.ops, ";"))
